@@ -265,14 +265,14 @@ theorem natOfDigits_natText (no : Nat) (h : no < 2 ^ 32) : natOfDigits 10 (natTe
 
 theorem pMember_item {f : Nat} {e : PExpr} {no : Nat} {ts : List Tok} (h : no < 2 ^ 32) :
     pMember (f + 1) e (ch 64 :: ⟨cINT, natText no⟩ :: ts) = pMember f (.item e no) ts := by
-  have h64 : ¬ (2 ^ 64 ≤ no) := by omega
+  have h64 : ¬ (2 ^ 32 ≤ no) := by omega
   rw [pMember.eq_def]
   simp [natOfDigits_natText no h, Nat.mod_eq_of_lt h, h64, ch, cDOT, cAT, cINT]
 
 theorem pMember_setm {f : Nat} {e x : PExpr} {no : Nat} {ts3 ts5 : List Tok} (h : no < 2 ^ 32)
     (hx : pLevel f 9 ts3 = .ok (x, ch 41 :: ts5)) :
     pMember (f + 1) e (ch 46 :: kw "set" :: ch 64 :: ⟨cINT, natText no⟩ :: ch 40 :: ts3) = pMember f (.setm e no x) ts5 := by
-  have h64 : ¬ (2 ^ 64 ≤ no) := by omega
+  have h64 : ¬ (2 ^ 32 ≤ no) := by omega
   rw [pMember.eq_def]
   simp [natOfDigits_natText no h, Nat.mod_eq_of_lt h, h64, hx, kw, ch, cDOT, cAT, cINT, cLP, cRP, bind, Except.bind]
 
